@@ -19,50 +19,6 @@ var verifC12Hash uint64
 func EntryHash64(prefix uint32, key []byte) uint64 { return verifC12Hash }
 
 // ---------------------------------------------------------------------------------------------
-// C12.cidx.open — Open + Header.Load over a file of N arbitrary bytes (every byte symbolic).
-// The length field (bytes 8..12) takes every value in [0, N+4] and every value above the
-// allocation limit (the band in between only makes Open allocate, read short and return the
-// read error; it is excluded to keep the number of concrete buffer lengths small).
-func VerifC12CidxOpen() {
-	lens := []int{verifParam("N", 40), 0, 7, 12, 24, 25, 26}
-	N := lens[verifChoice("filelen", verifParam("lens", len(lens)))]
-	limit := verifParam("alloc", 1<<20)
-	verifAllocLimit(int64(limit))
-	data := verifBytes("file", N)
-	if N >= 12 {
-		size := binary.LittleEndian.Uint32(data[8:12])
-		verifAssume(size <= uint32(N+4) || size > uint32(limit-12))
-		// known defects of Open/Header.Load (see /verif/proposed-fixes/C12-cidx-header-size.md)
-		magicOK := *(*[8]byte)(data[:8]) == Magic
-		verifKnownFinding("C12-cidx-hdr-len12", magicOK && size == 12 && N >= 24)
-		verifKnownFinding("C12-cidx-size-wrap", magicOK && size >= 0xFFFFFFF4)
-		verifKnownFinding("C12-cidx-size-alloc", magicOK && size > uint32(limit-12) && size < 0xFFFFFFF4)
-		if N >= 26 {
-			// metadata: arbitrary bytes, but no key-value pair is announced (the
-			// metadata decoder over arbitrary bytes is C12.meta)
-			verifAssume(data[25] == 0)
-		}
-	}
-	db, err := Open(bytes.NewReader(data))
-	if err != nil {
-		verifAssert(db == nil, "C12.cidx.open: Open returned both a handle and an error")
-		verifReach("open-error")
-		verifReach("end")
-		return
-	}
-	verifAssert(db != nil && db.Header != nil && db.Header.Metadata != nil, "C12.cidx.open: Open returned nil without an error")
-	// what the query code relies on
-	verifAssert(db.Header.ValueSize != 0, "C12.cidx.open: Open accepted value size 0 (GetValueSize would panic)")
-	verifAssert(db.Header.NumBuckets != 0, "C12.cidx.open: Open accepted 0 buckets (BucketHash would divide by zero)")
-	verifAssert(db.headerSize >= 25 && db.headerSize <= int64(N), "C12.cidx.open: header size outside the file")
-	_ = db.GetValueSize()
-	_, _ = db.GetKind()
-	_ = db.KindIs([]byte("x"))
-	verifReach("open-ok")
-	verifReach("end")
-}
-
-// ---------------------------------------------------------------------------------------------
 // C12.cidx.lookup / C12.cidx.load — a file with a well-formed 26-byte header (no metadata)
 // whose value size is one of the structure-aware candidates, one bucket header and E bytes of
 // entries.
